@@ -570,6 +570,18 @@ func (w *worker[T, JobType]) stopAndRemoveAllWorkers() {
 }
 
 func (w *worker[T, JobType]) start() error {
+	// The check below and the switch to Running further down are one step: two
+	// goroutines that both found the worker Initiated (two first Bind calls, a Bind
+	// next to a Resume, a Resume inside the window Restart leaves open) each started
+	// an event loop, an idle-worker remover and a context listener.
+	w.lifecycle.Lock()
+	defer w.lifecycle.Unlock()
+
+	return w.startLocked()
+}
+
+// startLocked is start for callers that hold the lifecycle lock.
+func (w *worker[T, JobType]) startLocked() error {
 	// Only a worker that has never run (or that Restart has just reset) may start.
 	// Binding another queue to a paused or stopped worker must not resume it behind
 	// the caller's back with a second event loop.
@@ -747,10 +759,10 @@ func (w *worker[T, JobType]) Restart() error {
 	}
 	w.mx.Unlock()
 
-	// Reset status to initiated to allow start() to proceed
+	// Reset status to initiated to allow the start to proceed
 	w.status.Store(initiated)
 
-	if err := w.start(); err != nil {
+	if err := w.startLocked(); err != nil {
 		return err
 	}
 
